@@ -95,7 +95,9 @@ def cases(tier, seed):
         yield dict(served=served, sup=sup, ctx=ctx, seed=seed * 100003 + i,
                    titles=[rnd.choice(['SRV', 'A', 'SIXTEEN_CHARS_AE', 'x y']),
                            rnd.choice(['CLI', 'B', 'CALLING_AE_TITLE'])],
-                   scu_first=rnd.choice([0, 0, 1, 2]))
+                   scu_first=rnd.choice([0, 0, 1, 2]),
+                   appctx=rnd.choice([None, None, '1.2.826.0.1.3680043.8.498.77.1',
+                                      '1.2.840.10008.3.1.1.1.9']))
 
 
 def _hot_case(case):
@@ -262,8 +264,9 @@ def run_case(case):
                 m = probe_msg(peer, pid, ab_of.get(pid, S1), 100 + j)
                 out['probes'].append((pid, ts, m, calls[n0:]))
             peer.release()
+        appctx = case.get('appctx') or rc.APP_CONTEXT
         peer = peers.ScriptedRequestor(world.sim, world.net, ADDR, ctxs, called=called,
-                                       calling=calling, script=script)
+                                       calling=calling, script=script, app_context=appctx)
         world.spawn(peer.run, 'peer0', role='user')
         world.run(tmax=300)
         world.drain(1.0)
@@ -275,8 +278,9 @@ def run_case(case):
             v('peer-saw-protocol-error', e)
         if (p['called'], p['calling']) != (called.strip(), calling.strip()):
             v('ae-titles-not-repeated', 'got %r/%r' % (p['called'], p['calling']))
-        if p['app_context'] != rc.APP_CONTEXT:
-            v('application-context-not-repeated', repr(p['app_context']))
+        if p['app_context'] != appctx:
+            v('application-context-not-repeated', 'request named %r, reply names %r' % (
+                appctx, p['app_context']))
         got = p['contexts']
         if [c[0] for c in got] != [c[0] for c in ctxs]:
             v('contexts-not-answered-once-in-order', 'proposed ids %r answered %r' % (
